@@ -86,7 +86,7 @@ def validate_traces(trace_file: str, module: str, invariants: list[str], workdir
     os.makedirs(workdir, exist_ok=True)
     lines = [ln for ln in open(trace_file) if ln.strip()]
     if not lines:
-        return {"violations": [], "done": {}, "states": 0, "traces": 0, "wall_s": 0.0}
+        return {"violations": [], "done": {}, "states": 0, "generated": 0, "traces": 0, "wall_s": 0.0}
     shards = max(1, min(shards, len(lines)))
     # balance by size
     buckets: list[list[str]] = [[] for _ in range(shards)]
@@ -115,6 +115,7 @@ def validate_traces(trace_file: str, module: str, invariants: list[str], workdir
     violations = []
     done: dict[str, int] = {}
     states = 0
+    generated = 0
     expected_tids = {json.loads(ln)["tid"]: len(json.loads(ln)["events"]) for ln in lines}
     for (rc, out), j in zip(outs, jobs):
         if rc == -9:
@@ -131,6 +132,7 @@ def validate_traces(trace_file: str, module: str, invariants: list[str], workdir
             m = _GEN.match(ln)
             if m:
                 states += int(m.group(2))
+                generated += int(m.group(1))
         if "Exception" in out and "TLC threw" in out or "Error: TLC" in out or "java.lang." in out:
             # evaluation errors are machinery failures, never violations
             raise TLCFailure(f"TLC evaluation error, see {j[3]}")
@@ -139,7 +141,7 @@ def validate_traces(trace_file: str, module: str, invariants: list[str], workdir
     missing = [t for t in expected_tids if t not in done and t not in rejected]
     if missing:
         raise TLCFailure(f"{len(missing)} traces were not run to their end (e.g. {missing[:3]}); logs in {workdir}")
-    return {"violations": violations, "done": done, "states": states, "traces": len(lines),
+    return {"violations": violations, "done": done, "states": states, "generated": generated, "traces": len(lines),
             "wall_s": time.time() - t0}
 
 
